@@ -146,7 +146,7 @@ pub fn run_c08<C: NatCtx>(v: &mut Env<C>) {
 }
 
 pub fn run_c09<C: NatCtx>(v: &mut Env<C>) {
-    let (p, q, _g) = (v.p.clone(), v.q.clone(), v.g.clone());
+    let (p, q, g) = (v.p.clone(), v.q.clone(), v.g.clone());
     let quick = v.h.tier == Tier::Quick;
     let ctx = v.ctx.clone();
     let tok = v.tok.clone();
@@ -196,6 +196,29 @@ pub fn run_c09<C: NatCtx>(v: &mut Env<C>) {
                     vkf = Some(f);
                     Out::Ok(o)
                 });
+                // a dealer buffer LONGER than the threshold (sized for a larger committee): shares and the Feldman
+                // check both use the first t entries, so the verdict is the same
+                if j < 3 {
+                    let mut long_comms = comms.clone();
+                    let mut long_xs = xs.clone();
+                    for k in 0..(1 + j) {
+                        let extra = v.rnd_exp();
+                        long_comms.push(ctx.gmod_pow(&C::x_raw(&extra)));
+                        long_xs.push(C::x_raw(&extra));
+                        let _ = k;
+                    }
+                    let lv: Vec<BigUint> = long_comms.iter().map(C::e_val).collect();
+                    let lx: Vec<BigUint> = long_xs.iter().map(C::x_val).collect();
+                    let (lc2, lx2, ctx2) = (long_comms.clone(), long_xs.clone(), ctx.clone());
+                    let f_long = v.case("th_vkf", vec![vnats(&lv), nu(t as u64), nu(j as u64)], || Out::Ok(Val::Nat(C::e_val(&threshold::verification_key_factor(&lc2, t, j, &ctx2)))));
+                    let ctx2 = ctx.clone();
+                    let s_long = v.case("th_share", vec![nu(j as u64), nu(t as u64), vnats(&lx)], || Out::Ok(Val::Nat(C::x_val(&threshold::compute_peer_share(j, t, &lx2, &ctx2)))));
+                    if let (Out::Ok(Val::Nat(fl)), Out::Ok(Val::Nat(sl))) = (&f_long, &s_long) {
+                        v.h.check(g.modpow(sl, &p) == *fl, || format!("honest share rejected by the Feldman check when the dealer's vectors hold {} entries and the threshold is {} (receiver {}) on {}", lv.len(), t, j, tok));
+                    } else {
+                        v.h.check(false, || format!("share / verification key factor panics on vectors longer than the threshold on {} t={}", tok, t));
+                    }
+                }
                 match (share, vkf) {
                     (Some(s), Some(f)) => {
                         let ok = ctx.gmod_pow(&s) == f;
